@@ -8,18 +8,29 @@ import copy
 import json
 
 WRAP_PARAMS = ["args", "a", "G0", "x", "fn_args"]
+BUILTIN_NAMES = ["abs", "round", "hash", "repr"]  # builtins the generated code itself never uses
 
 
 # ---------------------------------------------------------------- generation
-def gen_program(rng, pkg, n=None, p_explicit=0.15, p_hidden=0.12, min_memento=2):
+def gen_program(rng, pkg, n=None, p_explicit=0.15, p_hidden=0.12, min_memento=2, p_lambda_pair=0.3, p_shadow=0.2):
     n = n or rng.randint(3, 7)
     split = rng.randint(0, n - 1)  # nodes [0, split) live in module b, the rest in module a
+    shadow = n >= 4 and rng.random() < p_shadow  # a wrapped helper of module b whose wrapper parameter is "a"
+    if shadow:
+        split = max(split, 3) if n > 3 else split
     nodes = []
     for i in range(n):
-        kind = rng.choice(["memento", "memento", "memento", "plain", "plain", "wrapped"])
+        kind = rng.choice(["memento", "memento", "memento", "plain", "plain", "wrapped", "lambda"])
         if i == 0 or (i < min_memento):
             kind = "memento"
-        nd = {"name": "f%d" % i, "mod": "b" if i < split else "a", "kind": kind, "version": None,
+        if shadow and i == 2 and split > 2:
+            kind = "wrapped"
+        name = "f%d" % i
+        if kind == "plain" and rng.random() < 0.25:
+            free = [b for b in BUILTIN_NAMES if not any(n["name"] == b for n in nodes)]
+            if free:
+                name = rng.choice(free)  # a project helper that shadows a builtin
+        nd = {"name": name, "mod": "b" if i < split else "a", "kind": kind, "version": None,
               "params": [["x", None]], "kwonly": [], "const": rng.randint(1, 9), "tconst": None, "sconst": None,
               "op": rng.choice(["+", "-", "*"]), "nested": None, "reads": [], "calls": [], "wrap_param": None,
               "swap": False, "tfn": "sum"}
@@ -33,9 +44,20 @@ def gen_program(rng, pkg, n=None, p_explicit=0.15, p_hidden=0.12, min_memento=2)
             nd["tconst"] = [rng.randint(1, 9) for _ in range(rng.randint(2, 3))]
         if rng.random() < 0.5:
             nd["sconst"] = sorted(rng.sample(["alpha", "beta", "gamma", "delta", "eps", "zeta"], rng.randint(2, 4)))
-        if kind == "wrapped":
-            nd["wrap_param"] = "a" if (nd["mod"] == "b" and rng.random() < 0.6) else rng.choice(WRAP_PARAMS)
+        if kind == "wrapped" and shadow and i == 2 and split > 2:
+            nd["wrap_param"] = "a"
+        elif kind == "wrapped":
+            nd["wrap_param"] = "a" if (nd["mod"] == "b" and rng.random() < 0.8) else rng.choice(WRAP_PARAMS)
         nodes.append(nd)
+    # now and then one function uses two different module-level lambdas (they share a qualified name)
+    if n >= 4 and rng.random() < p_lambda_pair:
+        pair = rng.sample(range(max(split, 2), n), 2) if n - max(split, 2) >= 2 else []
+        for j in pair:
+            nodes[j]["kind"] = "lambda"
+            nodes[j]["version"] = None
+        lambda_pair = sorted(pair)
+    else:
+        lambda_pair = []
     # variables
     vars_ = []
     for j in range(rng.randint(1, 4)):
@@ -47,6 +69,9 @@ def gen_program(rng, pkg, n=None, p_explicit=0.15, p_hidden=0.12, min_memento=2)
         vars_.append({"name": "G%d" % j, "mod": rng.choice(["a", "a", "b"]) if split > 0 else "a", "type": t, "value": val})
     # call edges, variable reads, nested code
     for i, nd in enumerate(nodes):
+        if nd["kind"] == "lambda":
+            nd.update(params=[["x", None]], kwonly=[], tconst=None, sconst=None, version=None)
+            continue
         later = list(range(i + 1, n))
         for _ in range(rng.choice([0, 1, 1, 2]) if later else 0):
             t = rng.choice(later)
@@ -61,6 +86,22 @@ def gen_program(rng, pkg, n=None, p_explicit=0.15, p_hidden=0.12, min_memento=2)
             if nd["nested"]["call"] is not None:
                 f = call_form(rng, nodes, i, nd["nested"]["call"], 0.0)
                 nd["nested"]["form"] = "bare" if f == "alias" else f
+    if shadow and split > 2 and split < n:
+        # ... it is called by a memento function and reaches module a as a.<name> only
+        u = rng.choice([0, 1])
+        if not any(c["t"] == 2 for c in nodes[u]["calls"]):
+            nodes[u]["calls"].append({"t": 2, "form": "bare"})
+        t = rng.choice(range(split, n))
+        if not any(c["t"] == t for c in nodes[2]["calls"]):
+            nodes[2]["calls"].append({"t": t, "form": "attr"})
+    if lambda_pair:
+        users = [i for i in range(lambda_pair[0]) if nodes[i]["kind"] != "lambda"]
+        if users:
+            u = rng.choice(users)
+            for j in lambda_pair:
+                if not any(c["t"] == j for c in nodes[u]["calls"]):
+                    f = "attr" if (nodes[u]["mod"] == "b" and rng.random() < 0.3) else "bare"
+                    nodes[u]["calls"].append({"t": j, "form": f})
     aliases = []
     for i, nd in enumerate(nodes):
         for c in list(nd["calls"]):
@@ -75,6 +116,8 @@ def call_form(rng, nodes, i, t, p_hidden):
     src, dst = nodes[i], nodes[t]
     forms = ["bare", "bare", "alias"]
     if src["mod"] == "b" and dst["mod"] == "a":
+        if src["kind"] == "wrapped":
+            return "attr"  # wrapped helpers of module b reach module a as a.<name>
         forms += ["attr", "attr"]
     if src["mod"] == dst["mod"] and dst["kind"] == "memento" and rng.random() < p_hidden:
         return "hidden"
@@ -135,6 +178,9 @@ def call_expr(prog, nd, c, arg="x"):
 def render_def(prog, i):
     """Source text of one definition (decorators included)."""
     nd = prog["nodes"][i]
+    if nd["kind"] == "lambda":
+        first = ("x %s %d" % (nd["op"], nd["const"])) if not nd["swap"] else ("%d %s x" % (nd["const"], nd["op"]))
+        return "%s = lambda x: %s\n" % (nd["name"], first)
     ps = [p if d is None else "%s=%r" % (p, d) for p, d in nd["params"]]
     if nd["kwonly"]:
         ps.append("*")
